@@ -6,6 +6,7 @@ import SlipVerif.Driver.Util
      read all    <rbase> <fmt> <hextext>                 whole text (L1)
      read one    <rbase> <fmt> <hextext>                 first form and its end position (L1, one-form mode)
      read blocks <rbase> <fmt> <one:0|1> <hex,hex,…> <hexlast>   the block reader (L2); "-" = empty block list
+     read mode   <rbase> <fmt> <hextext>                 lexer mode after the text (for signatures)
      read tablesok                                        the table obligation evaluated by the driver
    fmt: s | d | l          replies:  ok <pos> <n> <obj>*  |  err <class> <n> <obj>*  (objects finished before the error) -/
 namespace SlipVerif.Driver.Reader
@@ -53,6 +54,13 @@ def showResult : Result → String
   | .ok code pos => s!"ok {pos} {code.length}" ++ renderList code
   | .err e code => s!"err {errTag e} {code.length}" ++ renderList code
 
+def modeName : Mode → String
+  | .plain .value => "value" | .plain .comment => "comment" | .plain .sharp => "sharp"
+  | .plain .sharpNum => "sharpNum" | .plain .mustArray => "mustArray"
+  | .plain .blockComment => "blockComment" | .plain .blockEnd => "blockEnd"
+  | .tok .token => "token" | .tok .chr => "char" | .tok .int => "int" | .tok .bitVec => "bitVector"
+  | .str .string => "string" | .str .symbol => "symbol" | .esc => "esc" | .rune => "rune"
+
 def parseFmt : String → Option FloatTy
   | "s" => some .single | "d" => some .double | "l" => some .long | _ => none
 
@@ -81,6 +89,14 @@ def handle (entry : String) (args : List String) : String :=
     match parseCfg rb fmt (one = "1"), parseBlocks blocks, unhexBytes? last with
     | some cfg, some bl, some la => showResult (readBlocks genTables cfg bl la)
     | _, _, _ => "bad-request blocks"
+  | "mode", [rb, fmt, hex] =>
+    match parseCfg rb fmt false, unhexBytes? hex with
+    | some cfg, some bs =>
+      let s := run1 genTables cfg init1 bs
+      match s.core.halt with
+      | some _ => "ok halted"
+      | none => "ok " ++ modeName s.mode
+    | _, _ => "bad-request mode"
   | "tablesok", [] => if tablesOK genTables then "ok t" else "ok nil"
   | _, _ => "bad-request entry"
 
